@@ -212,8 +212,8 @@ def _worker(job):
 
 def scope(tier: str):
     if tier == "quick":
-        return {"depths": [1, 2], "max_rows": 3, "cap": 40, "per_spec": 3, "depth3_per_spec": 0}
-    return {"depths": [1, 2, 3], "max_rows": 4, "cap": 64, "per_spec": 6, "depth3_per_spec": 2}
+        return {"depths": [1, 2], "max_rows": 3, "cap": 40, "per_spec": 2, "depth3_per_spec": 0}
+    return {"depths": [1, 2, 3], "max_rows": 4, "cap": 64, "per_spec": 5, "depth3_per_spec": 1}
 
 
 def make_cases(tier: str, seed: int):
